@@ -639,10 +639,13 @@ impl Scen {
             }
         };
         // ---- the other data set: every row differs, every target differs (translated) or an independent draw
-        let translated = sp.xk == XKind::Cont && rng.bool(0.5);
+        let translated = sp.xk == XKind::Cont && rng.bool(0.6);
+        // a third of the translated variants keep the first half of the rows in place (aligned, bit-identical):
+        // "different rows" then means "some rows differ", the hardest case for an equality that compares row by row
+        let shared_half = translated && rng.bool(0.35);
         let (b, bmode) = if translated {
             let shift: Vec<f64> = (0..p).map(|_| rng.int(1, 6) as f64 * if rng.bool(0.5) { 1.0 } else { -1.0 }).collect();
-            let bx = Mat::from_fn(n, p, |i, j| r32(f32w, ax.at(i, j) + shift[j]));
+            let bx = Mat::from_fn(n, p, |i, j| if shared_half && i < n / 2 { ax.at(i, j) } else { r32(f32w, ax.at(i, j) + shift[j]) });
             let by: Vec<f64> = match sp.yk {
                 YKind::None => vec![],
                 YKind::Reg => {
@@ -651,7 +654,7 @@ impl Scen {
                 }
                 YKind::Cls { .. } => aidx.iter().map(|i| labels[(i + 1) % k]).collect(),
             };
-            (Ds { x: bx, y: by }, "translated rows, shifted/rotated targets")
+            (Ds { x: bx, y: by }, if shared_half { "first half of the rows shared, the rest translated, shifted/rotated targets" } else { "translated rows, shifted/rotated targets" })
         } else {
             let mut bx = draw_rows(rng, sp.xk, grid, f32w, n, p, &g);
             if bx.d == ax.d {
